@@ -603,7 +603,7 @@ def generate(env: Env, rseed: int, thorough: bool) -> Tuple[Dict[str, Any], List
 
 # ====================================================================== batch metadata
 
-RUNS = {"quick": 40000, "thorough": 800000}
+RUNS = {"quick": 80000, "thorough": 1000000}
 WALL_CAP = {"quick": 240.0, "thorough": 2400.0}
 
 COMPONENTS = {
